@@ -82,14 +82,14 @@ type LockConfig struct {
 
 // Locksets is the result of the interprocedural must-lockset analysis.
 type Locksets struct {
-	cfg    LockConfig
-	Fns    []*ssa.Function
-	Entry  map[*ssa.Function]LockSet
-	Before map[ssa.Instruction]LockSet
-	Exit   map[*ssa.Function]LockSet
-	invoke map[*ssa.Function]map[int]LockSet // state at invocations of function-typed parameter i
+	cfg     LockConfig
+	Fns     []*ssa.Function
+	Entry   map[*ssa.Function]LockSet
+	Before  map[ssa.Instruction]LockSet
+	Exit    map[*ssa.Function]LockSet
+	invoke  map[*ssa.Function]map[int]LockSet // state at invocations of function-typed parameter i
 	Spawned map[*ssa.Function]bool            // runs on its own goroutine / asynchronously
-	Rounds int
+	Rounds  int
 }
 
 func isSyncLockType(t types.Type) (mutex bool) {
